@@ -162,6 +162,13 @@ fn u64_snapshot_defect(v: &[u64], sorted_ids: &[u64]) -> Option<&'static str> {
     None
 }
 
+/// The concrete parameters go to stdout before anything runs: when the
+/// process dies the parent still reports them.
+fn announce(params: &Value) {
+    println!("PARAMS {params}");
+    let _ = std::io::stdout().flush();
+}
+
 fn gen_ids(p: &mut Prng, len: usize) -> Vec<u64> {
     let base = 1000 * (1 + p.below(900));
     let step = 1 + p.below(9);
@@ -175,7 +182,7 @@ fn swap_rust(c: &Case, rep: &mut Report) {
     let len = 4 + p.below(13) as usize;
     let threads = 4 + p.below(5) as usize;
     let readers = 1 + p.below(2) as usize;
-    let rounds = (if c.thorough() { 120_000 } else { 30_000 }) * c.mult();
+    let rounds = (if c.thorough() { 400_000 } else { 100_000 }) * c.mult();
     let ids = gen_ids(&mut p, len);
     let mut sorted = ids.clone();
     sorted.sort_unstable();
@@ -183,6 +190,7 @@ fn swap_rust(c: &Case, rep: &mut Report) {
     let params = json!({"threads": threads, "reader_threads": readers, "list_length": len, "rounds_per_thread": rounds,
         "initial_list": ids, "element_types": ["Val<Wide> (16 x u64)", "u64"], "attempt": c.attempt});
     let case = c.json();
+    announce(&params);
     rep.hist("share-class", "swap-rust");
     rep.hist("share-list-length", len.to_string());
     rep.class(format!("share swap-rust wide+u64 t={threads}"));
@@ -454,7 +462,7 @@ macro_rules! swap_script_body {
         let len = 4 + p.below(13) as usize;
         let threads = 4 + p.below(5) as usize;
         let readers = 1 + p.below(2) as usize;
-        let rounds = (if c.thorough() { 100_000 } else { 25_000 }) * c.mult();
+        let rounds = (if c.thorough() { 320_000 } else { 80_000 }) * c.mult();
         let ids = gen_ids(&mut p, len);
         let mut sorted = ids.clone();
         sorted.sort_unstable();
@@ -464,6 +472,7 @@ macro_rules! swap_script_body {
         let params = json!({"threads": threads, "reader_threads": readers, "list_length": len, "rounds_per_call": rounds, "lcg_seeds": seeds,
             "initial_list": ids, "element_type": <$E as Elem>::NAME, "attempt": c.attempt, "source": src});
         let case = c.json();
+        announce(&params);
         rep.hist("share-class", "swap-script");
         rep.hist("share-list-length", len.to_string());
         rep.class(format!("share swap-script {} t={threads}", <$E as Elem>::NAME));
@@ -707,10 +716,10 @@ fn refcount_storm(c: &Case, rep: &mut Report) {
     let mut p = c.prng(3);
     let variant = ["function-item", "library-closure", "constant"][(c.index % 3) as usize];
     let threads = 4 + p.below(5) as usize;
-    let rounds = (if c.thorough() { 160_000 } else { 40_000 }) * c.mult();
-    let compiles = (if c.thorough() { 12 } else { 5 }) * c.mult().min(4);
+    let rounds = (if c.thorough() { 480_000 } else { 120_000 }) * c.mult();
+    let compiles = (if c.thorough() { 12 } else { 6 }) * c.mult().min(4);
     let rt_clones = rounds / 400;
-    let held_n = 4000 + p.below(4000) as usize;
+    let held_n = 8000 + p.below(8000) as usize;
     let n_arg = 3 + p.below(20);
     let tok_id = 1 + p.below(1000);
     let is_const = variant == "constant";
@@ -718,12 +727,15 @@ fn refcount_storm(c: &Case, rep: &mut Report) {
     let params = json!({"variant": variant, "threads": threads, "clone_drop_rounds_per_thread": rounds, "compilations_per_compiling_thread": compiles,
         "runtime_clones_per_cloning_thread": rt_clones, "held_clones": held_n, "call_argument": n_arg, "attempt": c.attempt, "source": src});
     let case = c.json();
+    announce(&params);
     rep.hist("share-class", "refcount-storm");
     rep.class(format!("share refcount-storm {variant} t={threads}"));
 
     let calls = Arc::new(AtomicUsize::new(0));
     let drops = Arc::new(AtomicUsize::new(0));
     let clones_live = Arc::new(AtomicI64::new(0));
+    // constant variant: the token owned by the registered closure that consumes the constant
+    let fn_drops = Arc::new(AtomicUsize::new(0));
 
     // the registered item and the one shared runtime
     let (owner, rt): (Owner, Runtime<NoCtx>) = match variant {
@@ -744,13 +756,14 @@ fn refcount_storm(c: &Case, rep: &mut Report) {
         }
         _ => {
             let tok = CTok { original: true, id: tok_id, orig_drops: drops.clone(), clones_live: clones_live.clone() };
-            let calls2 = calls.clone();
+            // the closure that consumes the constant owns a token as well
+            let token = Token { calls: calls.clone(), drops: fn_drops.clone() };
             let lib: Library = library! {
                 /// a drop-tracked constant's type
                 #[clone] type CTok = Val<CTok>;
 
                 /// consume a token
-                let tok_id = move |t: Val<CTok>| -> u64 { calls2.fetch_add(1, Ordering::SeqCst); t.0.id };
+                let tok_id = move |t: Val<CTok>| -> u64 { token.calls.fetch_add(1, Ordering::SeqCst); t.0.id };
             };
             let k = Constant::new("TOK", "a drop-tracked constant", Val(tok), location!()).expect("constant item");
             let mut rt = Runtime::from_lib(lib).expect("runtime");
@@ -796,6 +809,8 @@ fn refcount_storm(c: &Case, rep: &mut Report) {
         balanced
     };
 
+    let total_drops = || drops.load(Ordering::SeqCst) + fn_drops.load(Ordering::SeqCst);
+    let expected_final_drops = if is_const { 2 } else { 1 };
     let held: Vec<Owner> = (0..held_n)
         .map(|i| match (&owner, i % 3) {
             (Owner::Func(f), 1) => Owner::Item(Item::Function(f.clone())),
@@ -813,7 +828,7 @@ fn refcount_storm(c: &Case, rep: &mut Report) {
     std::thread::scope(|s| {
         for tid in 0..threads {
             let (owner, rt, held) = (&owner, &rt, &held);
-            let (barrier, bad, storm_calls, compiled, drops) = (&barrier, &bad, &storm_calls, &compiled, &drops);
+            let (barrier, bad, storm_calls, compiled, total_drops) = (&barrier, &bad, &storm_calls, &compiled, &total_drops);
             let compile_and_get = &compile_and_get;
             s.spawn(move || {
                 barrier.wait();
@@ -859,7 +874,7 @@ fn refcount_storm(c: &Case, rep: &mut Report) {
                                 _ => held[(k as usize * 7 + tid) % held.len()].clone(),
                             };
                             drop(copy);
-                            if k % 1024 == 0 && drops.load(Ordering::SeqCst) != 0 {
+                            if k % 1024 == 0 && total_drops() != 0 {
                                 break;
                             }
                         }
@@ -877,11 +892,11 @@ fn refcount_storm(c: &Case, rep: &mut Report) {
         rep.violation(
             "a value owned by a registered closure / constant was dropped while the registered item, a runtime and clones of the item are still alive (a reference count on the registered-function / constant path lost an update)",
             "share-registered-value-dropped-early:refcount-storm",
-            json!({"case": case, "observed": {"params": params, "when": when, "drops": drops.load(Ordering::SeqCst), "expected_drops": 0, "detail": extra}}),
+            json!({"case": case, "observed": {"params": params, "when": when, "drops": total_drops(), "expected_drops": 0, "detail": extra}}),
         );
         emit_and_exit(rep);
     };
-    if drops.load(Ordering::SeqCst) != 0 {
+    if total_drops() != 0 {
         early(rep, "right after the concurrent phase (item, runtime and all held clones alive)".into(), json!(null));
     }
     let bad = bad.take();
@@ -904,7 +919,7 @@ fn refcount_storm(c: &Case, rep: &mut Report) {
     // release the held clones one by one: the item and the runtime still own the value
     for (i, copy) in held.into_iter().enumerate() {
         drop(copy);
-        if drops.load(Ordering::SeqCst) != 0 {
+        if total_drops() != 0 {
             early(rep, format!("after releasing {} of {held_n} held clones (item and runtime still alive)", i + 1), json!(null));
         }
     }
@@ -924,7 +939,7 @@ fn refcount_storm(c: &Case, rep: &mut Report) {
     drop(pkg);
     drop(rt);
     drop(owner);
-    if drops.load(Ordering::SeqCst) != 0 {
+    if total_drops() != 0 {
         early(rep, "after dropping the package, the runtime and the item while a function handle is alive".into(), json!({"first_call": r1}));
     }
     let r2 = main.call(1);
@@ -937,12 +952,13 @@ fn refcount_storm(c: &Case, rep: &mut Report) {
         );
     }
     drop(main);
-    let d = drops.load(Ordering::SeqCst);
-    if d != 1 {
+    let d = total_drops();
+    if d != expected_final_drops {
         rep.violation(
             "after the last owner (item, runtime, clones, package, handle) was dropped the value owned by the registered closure / constant was not dropped exactly once (a reference count on the registered-function / constant path lost an update)",
             "share-registered-value-drop-count:refcount-storm",
-            json!({"case": case, "observed": {"params": params, "drops": d, "expected_drops": 1}}),
+            json!({"case": case, "observed": {"params": params, "drops": d, "expected_drops": expected_final_drops,
+                "dropped": {"value_of_the_item": drops.load(Ordering::SeqCst), "value_of_the_consuming_closure": fn_drops.load(Ordering::SeqCst)}}}),
         );
     }
     let cl = clones_live.load(Ordering::SeqCst);
@@ -1002,10 +1018,11 @@ fn into_func_flow(
     owners: Box<dyn Send>,
     n_clones: usize,
 ) {
-    let calls = (if c.thorough() { 20_000 } else { 4_000 }) * c.mult();
+    let calls = (if c.thorough() { 40_000 } else { 8_000 }) * c.mult();
     let churners = 3usize;
     let params = json!({"variant": variant, "source": src, "calls_per_phase": calls, "other_handle_clones": n_clones, "churn_threads": churners, "attempt": c.attempt});
     let case = c.json();
+    announce(&params);
     let bad = Bad::new();
     let mut n_checked = 0u64;
     let mut phase = |name: &str, count: u64, at: Option<(u64, &dyn Fn())>| {
@@ -1252,11 +1269,12 @@ pub fn run_case(c: &Case, rep: &mut Report, keep_sample: bool) -> usize {
             Ended::Timeout => format!("timeout after {} s", timeout(c).as_secs()),
         };
         let phase = out.lines().rev().find_map(|l| l.strip_prefix("PHASE ")).map(|s| s.to_string());
+        let params: Option<Value> = out.lines().rev().find_map(|l| l.strip_prefix("PARAMS ")).and_then(|j| serde_json::from_str(j).ok());
         rep.hist("share-class", c.class.as_str());
         rep.violation(
             "a process in which threads share a list / a registered closure or constant / an into_func closure through the safe API died or hung",
             &format!("share-crash:{}", c.class),
-            json!({"case": c.json(), "observed": {"ended": how, "attempt": c.attempt, "last_phase": phase}}),
+            json!({"case": c.json(), "observed": {"ended": how, "attempt": c.attempt, "last_phase": phase, "params": params}}),
         );
     }
     rep.impl_violations.len() - before
